@@ -984,7 +984,7 @@ def get_pad_shapes_chunks(array, pad_width, axes, mode):
                 pad_chunks[i][d] = (pad_width[d][i],)
             else:
                 pad_chunks[i][d] = normalize_chunks(
-                    (max(pad_chunks[i][d]),), (pad_width[d][i],)
+                    (max(max(pad_chunks[i][d]), 1),), (pad_width[d][i],)
                 )[0]
 
     pad_shapes = [tuple(s) for s in pad_shapes]
